@@ -71,10 +71,31 @@ type session = {
   mutable pend_tol : (q list * q list) option;   (* per-row tolerances of E, per-column tolerances of the aggregate row *)
   mutable multi : bundle option;      (* the model run on its own state from NEW on (bounded number of steps) *)
   mutable steps : int;
+  mutable hist : q;                   (* largest |f| the session went through (magnitude history of the linearisation errors) *)
 }
+(* multistep: the model's OWN state meets the branches of the two-row closed form of bundle_t::solve (q == 0: b not finite, 0 <= b <= 1,
+   0.5 q + p > 0).  A branch is ambiguous when its two sides are within 1e-9 of the summed magnitudes of their terms; the terms of the
+   linearisation errors e0, e1 (differences of function values and linearisations over the history of the session) enter with 1e-12 of the
+   largest |f| of the session, times miu as they do in p = q01 - q11 + miu (e0 - e1) *)
+let multi_stopped = ref 0
+let rel12s = { qnum = B.unit_big_int; qden = B.big_int_of_string "1000000000000" }
+let solve2_ambiguous (b : bundle) (miu : q) (hist : q) : bool =
+  match b.bcuts with
+  | [c0; c1] ->
+      let q00 = dot c0.cs c0.cs and q11 = dot c1.cs c1.cs and q01 = dot c0.cs c1.cs in
+      let qq = q00 +/ q11 -/ q01 -/ q01 in
+      let pp = q01 -/ q11 +/ miu */ c0.ce -/ miu */ c1.ce in
+      let magq = q00 +/ q11 +/ qabs q01 +/ qabs q01 in
+      let magp = qabs q01 +/ q11 +/ qabs (miu */ c0.ce) +/ qabs (miu */ c1.ce) in
+      let noise = rel12s */ qabs miu */ hist in
+      let nr lhs mag extra = qle (qabs lhs) (rel9 */ mag +/ extra +/ tiny) in
+      let half = { qnum = B.unit_big_int; qden = B.big_int_of_int 2 } in
+      nr qq magq qz || nr pp magp noise || nr (pp +/ qq) (magp +/ magq) noise || nr (half */ qq +/ pp) (magp +/ magq) noise
+  | _ -> false
 let sessions : (string, session) Hashtbl.t = Hashtbl.create 64
 
 let parse_rows s = List.map qs_of (split ';' s)
+let qmax0 a b = if qlt a b then b else a
 
 let cmp_state id (pred : bundle) (tols : (q list * q list) option) (size : int) (x : q list) (fx : q) (es : q list) (rows : q list list) what strict =
   incr total;
@@ -117,7 +138,7 @@ let handle_bundle id rest =
         report "capacity" id (Printf.sprintf "max=%d model=%d impl=%d" mx kcap cap);
       let x = qs_of (List.nth parts 1) and gx = qs_of (List.nth parts 2) and fx = q_of_float (parse_float (List.nth parts 3)) in
       let b = init (nat_of_int n) (B.big_int_of_int mx) x gx fx in
-      Hashtbl.replace sessions id { n; cap; eps0; cur = b; pending = Some b; pend_tol = None; multi = Some b; steps = 0 }
+      Hashtbl.replace sessions id { n; cap; eps0; cur = b; pending = Some b; pend_tol = None; multi = Some b; steps = 0; hist = qabs fx }
   | "STATE" ->
       let s = Hashtbl.find sessions id in
       let a = kvs args in
@@ -179,7 +200,16 @@ let handle_bundle id rest =
              end);
         s.cur <- { s.cur with balpha = alpha };
         (match s.multi with
-         | Some mb -> s.multi <- step s.eps0 { mb with balpha = [] } (OSolve (miu, alpha))
+         | Some mb ->
+             (match step s.eps0 { mb with balpha = [] } (OSolve (miu, alpha)) with
+              | Some nb when List.length nb.bcuts = 2 && List.length alpha = 2
+                             && not (List.for_all2 (fun am ao -> close am ao rel6) nb.balpha alpha) ->
+                  (* the model on its own state and the library chose different multipliers for two rows: when a branch of the closed form
+                     is ambiguous on the model's own state (or miu is unknown) the two states legitimately diverge from here on -- the
+                     multistep comparison of this session stops (counted); otherwise it goes on and the next STATE is compared *)
+                  if (not miu_known) || solve2_ambiguous nb miu s.hist then begin incr multi_stopped; s.multi <- None end
+                  else s.multi <- Some nb
+              | r -> s.multi <- r)
          | None -> ())
       end
   | "CONV" ->
@@ -242,6 +272,14 @@ let handle_bundle id rest =
            let stol = List.mapi (fun j _ -> rel9 */ (List.fold_left2 (fun acc c al -> acc +/ qabs (al */ (List.nth c.cs j))) qz (fst r) (snd r))) y in
            s.pend_tol <- Some (etol, if fired then stol else List.map (fun _ -> qz) y));
       s.steps <- s.steps + 1;
+      if Float.is_finite (float_of_q fy) then s.hist <- qmax0 s.hist (qabs fy);
+      (* delete_inactive on the model's own multipliers vs the library's: a differing `alpha_i < eps0` within 1e-9 stops the multistep comparison *)
+      (match s.multi with
+       | Some mb when List.length mb.balpha = List.length b.balpha
+                      && List.exists2 (fun m l -> qlt m s.eps0 <> qlt l s.eps0) mb.balpha b.balpha
+                      && List.for_all2 (fun m l -> qlt m s.eps0 = qlt l s.eps0 || close m s.eps0 rel9) mb.balpha b.balpha ->
+           incr multi_stopped; s.multi <- None
+       | _ -> ());
       (match s.multi with
        | Some mb when s.steps <= 40 ->
            (match step s.eps0 mb (OAppend (serious, keep, y, gy, fy)) with
@@ -703,6 +741,9 @@ let absdot a b = List.fold_left2 (fun acc x y -> acc +/ qabs (x */ y)) qz a b
 
 type wend = { x_exit : string; x_iters : int; x_calls : int; x_sfx : q; x_w : wst }
 
+exception W_timeout
+let whole_expensive = ref 0
+let whole_seconds = ref 8.0
 let handle_w id rest =
   match String.split_on_char '|' rest with
   | [hd; x0; evs; qps; kps; sqs; fin; cen; sx; log; its] ->
@@ -967,7 +1008,14 @@ let () =
         else if String.length line > 2 && String.sub line 0 2 = "W " then begin
           let rest = String.sub line 2 (String.length line - 2) in
           let i = String.index rest ' ' in
-          handle_w (String.sub rest 0 i) (String.sub rest (i + 1) (String.length rest - i - 1))
+          (* exact rationals of a whole run with a large bundle can grow to millions of digits (one run of seed 3 took > 45
+             minutes): every whole run gets a CPU budget; a run that exceeds it is counted (whole_skipped_expensive), not
+             compared -- the per-pass LOOP stage and the per-operation session stage still cover its operations *)
+          let wid = String.sub rest 0 i and wrest = String.sub rest (i + 1) (String.length rest - i - 1) in
+          let old = Sys.signal Sys.sigalrm (Sys.Signal_handle (fun _ -> raise W_timeout)) in
+          let stop () = ignore (Unix.setitimer Unix.ITIMER_REAL { Unix.it_interval = 0.0; it_value = 0.0 }); Sys.set_signal Sys.sigalrm old in
+          ignore (Unix.setitimer Unix.ITIMER_REAL { Unix.it_interval = 0.0; it_value = !whole_seconds });
+          (try handle_w wid wrest; stop () with W_timeout -> stop (); incr whole_expensive | e -> stop (); raise e)
         end
         else if String.length line > 2 && String.sub line 0 2 = "D " then begin
           match List.map int_of_string (List.filter (fun t -> t <> "") (String.split_on_char ' ' (String.sub line 2 (String.length line - 2)))) with
@@ -998,7 +1046,7 @@ let () =
       | ex -> report "driver-exception" (Printf.sprintf "line %d" !nlines) (Printexc.to_string ex ^ " :: " ^ (if String.length line > 160 then String.sub line 0 160 else line)))
     done
   with End_of_file -> ());
-  Printf.printf "MODEL-DONE checked=%d mismatches=%d ambiguous_skipped=%d amb_solve2=%d amb_conv=%d amb_ell1=%d multistep_states=%d simplex_worst=%h sigma_worst=%h ellipsoid_steps_checked=%d ellipsoid_membership_checked=%d amb_elln=%d ellipsoid_membership_worst=%.17g propfails=%d loop_calls=%d loop_passes=%d loop_iters=%d loop_amb=%d loop_stale=%d loop_budget_exits=%d px_checked=%d px_amb=%d ns_checked=%d loop_long_calls_pass_only=%d whole_recorded=%d whole_runs=%d whole_followed=%d whole_decisions_followed=%d whole_miu_followed=%d whole_passes=%d whole_converged=%d whole_budget_exits=%d whole_appends=%d whole_aggregations=%d loop_status_hist=%s\n"
+  Printf.printf "MODEL-DONE checked=%d mismatches=%d ambiguous_skipped=%d amb_solve2=%d amb_conv=%d amb_ell1=%d multistep_states=%d simplex_worst=%h sigma_worst=%h ellipsoid_steps_checked=%d ellipsoid_membership_checked=%d amb_elln=%d ellipsoid_membership_worst=%.17g propfails=%d loop_calls=%d loop_passes=%d loop_iters=%d loop_amb=%d loop_stale=%d loop_budget_exits=%d px_checked=%d px_amb=%d ns_checked=%d loop_long_calls_pass_only=%d whole_recorded=%d whole_runs=%d whole_followed=%d whole_decisions_followed=%d whole_miu_followed=%d whole_passes=%d whole_converged=%d whole_budget_exits=%d whole_appends=%d whole_aggregations=%d whole_skipped_expensive=%d multistep_stopped_at_ambiguous_decision=%d loop_status_hist=%s\n"
     !total !mism !ambiguous !amb_solve !amb_conv !amb_ell !multi_checked !simplex_worst !sigma_worst !ell_steps !ell_member !amb_elln !ell_worst !propfails
-    !loop_calls !loop_passes !loop_iters !loop_amb !loop_stale !loop_budget_exits !px_checked !px_amb !ns_checked !loop_long !whole_recorded !whole_runs !whole_followed !whole_forced !whole_miu_followed !whole_passes !whole_conv !whole_budget !whole_appends !whole_aggr
+    !loop_calls !loop_passes !loop_iters !loop_amb !loop_stale !loop_budget_exits !px_checked !px_amb !ns_checked !loop_long !whole_recorded !whole_runs !whole_followed !whole_forced !whole_miu_followed !whole_passes !whole_conv !whole_budget !whole_appends !whole_aggr !whole_expensive !multi_stopped
     (String.concat "," (List.sort compare (Hashtbl.fold (fun k v acc -> Printf.sprintf "%d:%d" k v :: acc) status_hist [])))
